@@ -803,6 +803,9 @@ where
         src: LiveEvents<'a>, // borrows from `reader`
         cfg: crate::de::Cfg,
         finished: bool,
+        /// An error met while looking for the next document after a failed one (a reader
+        /// failure, the input cap): yielded as the next item instead of being dropped.
+        deferred: Option<Error>,
         _marker: std::marker::PhantomData<T>,
     }
 
@@ -814,6 +817,9 @@ where
         type Item = Result<T, Error>;
 
         fn next(&mut self) -> Option<Self::Item> {
+            if let Some(e) = self.deferred.take() {
+                return Some(Err(e));
+            }
             if self.finished {
                 return None;
             }
@@ -847,6 +853,7 @@ where
                                 // current document and try to recover at the next document boundary.
                                 if !self.src.skip_to_next_document() {
                                     self.finished = true;
+                                    self.deferred = self.src.finish().err();
                                 }
                                 return Some(Err(e));
                             }
@@ -904,6 +911,7 @@ where
         src,
         cfg,
         finished: false,
+        deferred: None,
         _marker: std::marker::PhantomData,
     }
 }
@@ -1194,6 +1202,9 @@ where
         src: LiveEvents<'a>, // borrows from `reader`
         cfg: crate::de::Cfg,
         finished: bool,
+        /// An error met while looking for the next document after a failed one (a reader
+        /// failure, the input cap): yielded as the next item instead of being dropped.
+        deferred: Option<Error>,
         _marker: std::marker::PhantomData<T>,
     }
 
@@ -1204,6 +1215,9 @@ where
         type Item = Result<T, Error>;
 
         fn next(&mut self) -> Option<Self::Item> {
+            if let Some(e) = self.deferred.take() {
+                return Some(Err(e));
+            }
             if self.finished {
                 return None;
             }
@@ -1237,6 +1251,7 @@ where
                                 // current document and try to recover at the next document boundary.
                                 if !self.src.skip_to_next_document() {
                                     self.finished = true;
+                                    self.deferred = self.src.finish().err();
                                 }
                                 return Some(Err(e));
                             }
@@ -1294,6 +1309,7 @@ where
         src,
         cfg,
         finished: false,
+        deferred: None,
         _marker: std::marker::PhantomData,
     }
 }
@@ -1935,6 +1951,9 @@ where
         src: LiveEvents<'a>, // borrows from `reader`
         cfg: crate::de::Cfg,
         finished: bool,
+        /// An error met while looking for the next document after a failed one (a reader
+        /// failure, the input cap): yielded as the next item instead of being dropped.
+        deferred: Option<Error>,
         _marker: std::marker::PhantomData<T>,
     }
 
@@ -1945,6 +1964,9 @@ where
         type Item = Result<T, Error>;
 
         fn next(&mut self) -> Option<Self::Item> {
+            if let Some(e) = self.deferred.take() {
+                return Some(Err(e));
+            }
             if self.finished {
                 return None;
             }
@@ -1975,6 +1997,7 @@ where
                             // If no next document is found, mark as finished.
                             if !self.src.skip_to_next_document() {
                                 self.finished = true;
+                                self.deferred = self.src.finish().err();
                             }
                         }
                         return Some(res);
@@ -2018,6 +2041,7 @@ where
         src,
         cfg,
         finished: false,
+        deferred: None,
         _marker: std::marker::PhantomData,
     }
 }
